@@ -21,7 +21,7 @@ for d in sorted(glob.glob(os.path.join(V, "seeded", "*"))):
         if not claims.get(p, {}).get("claimed"): continue
         t0 = time.time()
         out = subprocess.run([os.path.join(V, "tools", "run_seed.sh"), name, p, "-workers", "12"], capture_output=True, text=True, env=dict(os.environ, TAILN="400")).stdout
-        viol = re.findall(r"harness=(\S+) assert=(\S+)", out)
+        viol = re.findall(r"^  harness=(\S+) assert=(\S+)", out, re.M)
         entry["runs"].append({"check": p, "wall_s": round(time.time() - t0), "detected": "VIOLATION property=" in out,
                               "by": sorted(set(f"{h}:{a}" for h, a in viol))[:6], "inconclusive": "inconclusive=true" in out,
                               "applies": "PATCH-DOES-NOT-APPLY" not in out})
